@@ -1,4 +1,5 @@
 From Coq Require Extraction.
 From Coq Require Import ExtrOcamlBasic.
-From NV Require Import Base.Witness Io.Sched Bgzf.MtWriter Bgzf.MtReader.
-Extraction "model.ml" nv_types_witness c03_writer_model c03_st_writer_model stage c03_reader_model.
+From NV Require Import Base.Witness Io.Sched Bgzf.MtWriter Bgzf.MtReader Bgzf.Vpos Bgzf.Gzi Bgzf.ReaderOps Bgzf.MtReaderOps.
+Extraction "model.ml" nv_types_witness c03_writer_model c03_st_writer_model stage c03_reader_model
+  pack vcomp vuncomp c03_mt_reader_case c03_st_reader_case.
